@@ -208,7 +208,7 @@ func (fr *frame) callStatic(st *State, fn *ssa.Function, args []Val, free []Val,
 	}
 	// an assumed contract declared by the CALLER's package on a function of another package takes precedence over
 	// that function's own contract: a package may name a dependency's behaviour abstractly (listed as assumed)
-	if fn.Pkg != nil && u.Fn.Pkg != nil && fn.Pkg != u.Fn.Pkg {
+	if fn.Pkg != nil && u.Fn != nil && u.Fn.Pkg != nil && fn.Pkg != u.Fn.Pkg {
 		if bc := u.E.externFor(u.Fn, fnKey(fn)); bc != nil {
 			return resultVal(u, sig, fr.applyContract(st, bc, args, pos, fnKey(fn)))
 		}
@@ -714,6 +714,7 @@ func (fr *frame) runLoop(l *loop, ins []edge, incoming map[*ssa.BasicBlock][]edg
 	}
 	lname := fmt.Sprintf("%s loop %d", fr.fn.Name(), l.ordinal)
 	// 1. invariant holds on entry
+	u.assumeLemmas(bc, fr, st0, l.ordinal, l.header)
 	env0 := fr.specEnv(bc, st0)
 	env0.ctx = l.header
 	for _, iv := range invs {
@@ -729,6 +730,7 @@ func (fr *frame) runLoop(l *loop, ins []edge, incoming map[*ssa.BasicBlock][]edg
 		lreg = fr.inferLoopRegion(l, st0)
 	}
 	u.havocRegion(st1, lreg, lname)
+	u.assumeLemmas(bc, fr, st1, l.ordinal, l.header)
 	env1 := fr.specEnv(bc, st1)
 	env1.ctx = l.header
 	for _, iv := range invs {
